@@ -24,6 +24,7 @@ pub fn dispatch(prop: &str, ctx: Ctx) -> ! {
         "C05" => render_prop(ctx, &c05()),
         "C06" => render_prop(ctx, &c06()),
         "C02" => render_prop(ctx, &c02()),
+        "C13" => crate::c13::run(ctx),
         "warmup" => warmup(ctx),
         other => {
             eprintln!("harness error: l2 does not serve property {other:?}");
